@@ -58,6 +58,9 @@ func genC03(t *rapid.T) c03Scenario {
 	default:
 		// control error: never-stop fan that never spins, stalled at max; faults already in force
 		sc.Stop.AtMs = -1
+		if sc.Fan.Kind == "cmd" {
+			sc.Fan.Kind = "file" // 255 raises of a script based fan would only cost time
+		}
 		sc.Fan.NeverStop = true
 		sc.Fan.NoRpm = false
 		sc.Fan.PwmMap, sc.Fan.Quant = identityMap(), 0
